@@ -87,6 +87,10 @@ theorem splitOn_ne_nil (sep : UInt8) (s : Bytes) : splitOn sep s ≠ [] := by
 theorem needBT_ordered (pats : List Pat) : needBT pats false = true := by
   simp [needBT]
 
+/-- ordered mode always backtracks (`TestIfNeedBacktracking` answers `true` at once) -/
+theorem backtracking_ordered (rules : List GRule) : backtracking rules false = true := by
+  simp [backtracking, needBT_ordered]
+
 end SE
 
 namespace SE
@@ -106,7 +110,7 @@ theorem globLookup_ordered (cfg : Config V) (hord : cfg.orderingDisabled = false
     | some y => ∃ b, globLookup (toGRules cfg) cfg.orderingDisabled name ty = some b ∧ b.rule = y.2 ∧
         (NoStarField name → b.caps = capturesOf y.1.1.pat name) := by
   have hfind := find?_rulesFor_toGRules cfg name ty
-  simp only [globLookup, hord, needBT_ordered, Bool.not_false]
+  simp only [globLookup, hord, backtracking_ordered, Bool.not_false]
   cases hk : (globKK cfg ty).find? (fun y => globMatches y.1.1.pat name) with
   | none =>
     rw [hk] at hfind
